@@ -346,6 +346,9 @@ NativeGetItem(h, c, key) ==
       [] c.t = "str" -> IF key.t \in {"int", "bool"}
                         THEN (LET p == NormIdx(AsIntRep(key), Len(c.s)) IN IF p = 0 THEN OtherErr("IndexError") ELSE Str(<<c.s[p]>>))
                         ELSE Unspec("str key")
+      [] c.t = "tuple" -> IF key.t \in {"int", "bool"}
+                          THEN (LET p == NormIdx(AsIntRep(key), Len(c.items)) IN IF p = 0 THEN OtherErr("IndexError") ELSE c.items[p])
+                          ELSE IF key.t \in {"slice", "opaque"} THEN Unspec("slice/opaque key") ELSE TypeErr
       [] c.t = "opaque" -> Unspec("opaque")
       [] OTHER -> TypeErr
 
